@@ -2054,13 +2054,22 @@ class MatrixBase:
         vec._y = (x * self._ab) + (y * self._bb) + (z * self._cb)
         vec._z = (x * self._ac) + (y * self._bc) + (z * self._cc)
 
+    def _duplicate(self) -> Self:
+        """Create a distinct instance with our values. Unlike copy(), this also duplicates frozen matrices."""
+        cls = type(self)
+        mat = cls.__new__(cls)
+        mat._aa, mat._ab, mat._ac = self._aa, self._ab, self._ac
+        mat._ba, mat._bb, mat._bc = self._ba, self._bb, self._bc
+        mat._ca, mat._cb, mat._cc = self._ca, self._cb, self._cc
+        return mat
+
     def __matmul__(self, other: 'MatrixBase | AngleBase') -> Self:
         if isinstance(other, MatrixBase):
-            mat = self.copy()
+            mat = self._duplicate()
             mat._mat_mul(other)
             return mat
         elif isinstance(other, AngleBase):
-            mat = self.copy()
+            mat = self._duplicate()
             mat._mat_mul(Py_Matrix.from_angle(other))
             return mat
         else:
@@ -2094,7 +2103,7 @@ class MatrixBase:
             cls = type(other)
             return mat._to_angle(cls.__new__(cls))
         elif isinstance(other, MatrixBase):
-            mat = other.copy()
+            mat = other._duplicate()
             mat._mat_mul(self)
             return mat
         else:
